@@ -25,7 +25,7 @@ func Ptr[T any](tshow lazy.Eval[fp.Clone[T]]) fp.Clone[*T] {
 		if pt == nil {
 			return nil
 		}
-		var t = *pt
+		var t = tshow.Get().Clone(*pt)
 		return &t
 	})
 }
